@@ -109,8 +109,10 @@ type FnExec struct {
 	capTypes         map[string]CVal
 	arrOrigins       map[*Term]arrOrigin
 	rngDepth         int
+	rngBudget        int
+	followAliases    bool    // contract flag `followaliases`: byte strings are also followed through partial updates of an object that MAY be the one read (costly; off by default)
 	splits           []*Term // contract `split` conditions of the function under verification (entry state)
-	curPC            *Term // path condition of the state being executed (for side queries)
+	curPC            *Term   // path condition of the state being executed (for side queries)
 	sideCache        map[[2]int]bool
 	sideMemo         map[*Term]bool
 	sideQueries      int
